@@ -48,23 +48,28 @@ def _cls():
     import finam as fm
 
     class Prod(fm.TimeComponent):
-        def __init__(self, info, payload):
+        def __init__(self, info, payload, every_call=False):
             super().__init__()
             self._time = hs.T0
-            self.info, self.payload = info, payload
+            self.info, self.payload, self.every_call = info, payload, every_call
 
         def _next_time(self):
             return self.time + timedelta(minutes=10)
 
         def _initialize(self):
-            self.outputs.add(name="o", info=self.info)
+            if self.every_call:
+                self.outputs.add(name="o")
+            else:
+                self.outputs.add(name="o", info=self.info())
             self.create_connector()
 
         def _connect(self, start_time):
             pd = {}
             if self.connector.data_required["o"] and self.connector.out_infos["o"] is not None:
                 pd["o"] = self.payload(self.connector.out_infos["o"])
-            self.try_connect(start_time, push_data=pd)
+            # documented: infos may be passed again on every call (a freshly built object each time)
+            pi = {"o": self.info()} if self.every_call else {}
+            self.try_connect(start_time, push_infos=pi, push_data=pd)
 
         def _validate(self):
             pass
@@ -76,21 +81,26 @@ def _cls():
             pass
 
     class Cons(fm.TimeComponent):
-        def __init__(self, name, info):
+        def __init__(self, name, info, late=0):
             super().__init__()
             self._name = name
             self._time = hs.T0
-            self.info = info
+            self.info, self.late, self.calls = info, late, 0
 
         def _next_time(self):
             return self.time + timedelta(minutes=10)
 
         def _initialize(self):
-            self.inputs.add(name="i", info=self.info)
+            if self.late:
+                self.inputs.add(name="i")  # its info becomes available only after `late` connect calls
+            else:
+                self.inputs.add(name="i", info=self.info)
             self.create_connector(pull_data=["i"])
 
         def _connect(self, start_time):
-            self.try_connect(start_time)
+            self.calls += 1
+            ex = {"i": self.info} if (self.late and self.calls >= self.late and self.connector.in_infos["i"] is None) else {}
+            self.try_connect(start_time, exchange_infos=ex)
 
         def _validate(self):
             pass
@@ -162,13 +172,14 @@ def check(case, ctx):
     pgrid, pcfg = grid_of(p["grid"])
     pmask = p["mask"] if (pcfg is not None or p["mask"] in ("FLEX", "NONE")) else "FLEX"
     pmeta = {"foo": None if p["foo"] == "unset" else p["foo"]} if p["foo"] != "absent" else {}
-    pinfo = fm.Info(
-        time=hs.T0 if p["time"] else None,
-        grid=pgrid,
-        units=p["units"],
-        mask=mask_of(pmask, pcfg),
-        **pmeta,
-    )
+    def pinfo():
+        return fm.Info(
+            time=hs.T0 if p["time"] else None,
+            grid=pgrid,
+            units=p["units"],
+            mask=mask_of(pmask, pcfg),
+            **dict(pmeta),
+        )
 
     def payload(info):
         g = info.grid
@@ -179,7 +190,9 @@ def check(case, ctx):
             return np.ma.array(data, mask=info.mask)
         return data
 
-    prod = Prod(pinfo, payload)
+    prod = Prod(pinfo, payload, every_call=bool(p.get("every_call")))
+    if p.get("every_call"):
+        ctx.event("producer-info-on-every-call")
     cons, cinfos = [], []
     for k, c in enumerate(case["cons"]):
         cgrid, ccfg = grid_of(c["grid"])
@@ -190,7 +203,9 @@ def check(case, ctx):
         cmeta = {"foo": None if c["foo"] == "unset" else c["foo"]} if c["foo"] != "absent" else {}
         ci = fm.Info(time=hs.T0 if c["time"] else None, grid=cgrid, units=c["units"], mask=mask_of(cm, ccfg), **cmeta)
         cinfos.append(ci)
-        cons.append(Cons(f"C{k}", ci))
+        cons.append(Cons(f"C{k}", ci, late=c.get("late", 0)))
+        if c.get("late"):
+            ctx.event("consumer-info-late")
     comps = [prod] + cons
     order = []
     for i in case["order"][: len(comps)]:
@@ -278,6 +293,10 @@ def check(case, ctx):
     filled = any(c["grid"] is None or c["units"] is None or not c["time"] for c in case["cons"]) or not full
     ctx.nontrivial(filled or len(case["cons"]) >= 2 or ada in ("sum", "grid2val", "val2grid"))
     info = f" | case {case}"
+    if got == "stuck" and any(c.get("late", 0) >= 2 for c in case["cons"]):
+        # a consumer that sits idle for a sweep may trip the stall detection of the connect loop: not judged here
+        ctx.event("stall-by-late-info(not judged)")
+        return
     if conflicts and got == "ok":
         ctx.violation("conflict-accepted", f"{conflicts[:2]} but connect() succeeded" + info)
         return
@@ -388,6 +407,7 @@ def case_st(draw):
         "units": pu if draw(st.integers(0, 9)) < 7 else None,
         "mask": pm,
         "foo": draw(st.sampled_from(["absent", "absent", "bar", "unset"])),
+        "every_call": draw(st.integers(0, 3)) == 0,
     }
     if prod["grid"] is None and pm not in ("FLEX", "NONE"):
         prod["mask"] = "FLEX"
@@ -430,7 +450,8 @@ def case_st(draw):
         if cg is None and cm not in ("FLEX", "NONE"):
             cm = "FLEX"
         cons.append({"time": draw(st.integers(0, 9)) < 7, "grid": cg, "units": cu, "mask": cm,
-                     "foo": draw(st.sampled_from(["absent", "absent", "bar", "baz", "unset"]))})
+                     "foo": draw(st.sampled_from(["absent", "absent", "bar", "baz", "unset"])),
+                     "late": draw(st.sampled_from([0, 0, 1, 2]))})  # n = info handed over in the n-th _connect call
     return {"prod": prod, "cons": cons, "adapter": ada, "order": draw(st.lists(st.integers(0, 3), min_size=4, max_size=4))}
 
 
